@@ -204,12 +204,18 @@ def build_jobs(tier, rnd):
     # ... and both deep in block containers (12 + 11 quotes / list items against the same limit)
     deep = (("render", "> " * 6 + "- " * 3 + "[[[[[[[[[[[[a]]]]]]]]]]]](/a) *[x](/y)*\n"),
             ("render", "> " * 11 + "[[[[[[[[[[b]]]]]]]]]](/b)\n"))
-    pairs = [(DOCS[0], DOCS[1]), (DOCS[1], DOCS[0]), (DOCS[2], DOCS[1]), deep, (DOCS[3], DOCS[1]), (DOCS[1], DOCS[3])]
+    # per-parse caches (the code-span closer table filled by the first unmatched backtick run, delimiter lists, the
+    # pending text): two short inline texts that each fill and later consult them, pre-empted at EVERY event
+    # (the second text has its unmatched runs EARLY, the first its code spans LATE: a table entry of the one is a
+    # plausible but wrong "no closer ahead" for the other)
+    cache = (("renderInline", "```` a b c `d` e ``f`` ```g``` *h* ~~i~~ [j](/k)"), ("renderInline", "```` ` `` ``` x **w** _v"))
+    cache2 = (cache[1], cache[0])
+    pairs = [(DOCS[0], DOCS[1]), (DOCS[1], DOCS[0]), (DOCS[2], DOCS[1]), deep, cache, cache2, (DOCS[3], DOCS[1]), (DOCS[1], DOCS[3])]
     cfgs = CONFIGS if tier == "thorough" else ["commonmark", "js-default", "reconfigured"]
     info = {"ruler_points": 0, "other_points": 0}
     for cfg in cfgs:
-        for pa in (pairs if tier == "thorough" else pairs[:4]):
-            if pa is deep and cfg != "commonmark" and tier != "thorough":
+        for pa in (pairs if tier == "thorough" else pairs[:6]):
+            if (pa is deep or pa is cache or pa is cache2) and cfg != "commonmark" and tier != "thorough":
                 continue
             calls = list(pa)
             cnt, where, shared = plan_points(cfg, calls)
@@ -226,7 +232,9 @@ def build_jobs(tier, rnd):
                 firsts = sorted(set(firsts) | set(everywhere))
                 info["all_library_lines"] = len(everywhere)
             info["shared_module_lines"] = info.get("shared_module_lines", 0) + len(firsts)
-            if tier == "quick":
+            if pa is cache or pa is cache2:
+                pass                      # every event of the first call is a pre-emption point
+            elif tier == "quick":
                 others = sorted(set(rnd.sample(others, min(400 if pa is deep else 60, len(others))) + firsts))
                 if jobs:  # quick: every bytecode of ruler.py for the first (config, pair), a sample for the rest
                     inr = sorted(rnd.sample(inr, min(250, len(inr))))
